@@ -13,6 +13,7 @@ PROPS = {
     "C03": dict(families=["acq", "panic", "fault", "hist"], pred="C03"),
     "C04": dict(families=["acq"], pred="C04"),
     "C05": dict(families=["acq", "panic", "fault"], pred="C05"),
+    "C06": dict(families=["hist", "panic", "acq"], pred="C06"),
     "C08": dict(families=["order", "acq"], pred="C08"),
     "C09": dict(families=["acq", "fault"], pred="C09"),
     "C11": dict(families=["panic"], pred="C11"),
